@@ -1,9 +1,16 @@
     requires old(self).wf(*old(w)),
         old(w).journal.locked, // [C10:watermarks-and-rotation-in-one-critical-section]
         all_ks_wf(watermarks@, *old(w)),
+        old(w).journal.os_len <= old(w).journal.len && old(w).journal.synced_len <= old(w).journal.os_len,
+        covers_all_memtables(watermarks@, *old(w)), // [C10:watermarks-cover-every-unflushed-memtable-at-sealing-time] [C02:watermarks-cover-every-unflushed-memtable-at-sealing-time]
     ensures
         r is Ok ==> final(self).wf(*final(w)) && final(w).sealed.len() == old(w).sealed.len() + 1
             && final(w).sealed.last().wms == wms_view(watermarks@) // [C10:recorded-watermarks-are-the-captured-ones]
             && final(w).sealed.drop_last() == old(w).sealed, // [C10:sealed-at-the-back]
         r is Err ==> final(self).wf(*final(w)) && final(w).sealed == old(w).sealed,
         final(w).journal.locked,
+        r is Ok ==> final(w).journal.failed == old(w).journal.failed, // [C13:successful-rotation-is-not-a-journal-failure]
+        *final(w) == (World { journal: final(w).journal, sealed: final(w).sealed, ..*old(w) }),
+        final(w).journal.recs == old(w).journal.recs && final(w).journal.len == old(w).journal.len,
+        final(w).journal.os_len >= old(w).journal.os_len && final(w).journal.os_len <= final(w).journal.len,
+        final(w).journal.synced_len >= old(w).journal.synced_len && final(w).journal.synced_len <= final(w).journal.os_len,
